@@ -19,7 +19,7 @@ pub fn canonical(name: &str) -> String {
 pub fn run(ctx: &Ctx) -> Report {
     let mut rep = Report::new("xconfig");
     let es = entries();
-    let nkeys = ctx.budget(120, 6000, 2);
+    let nkeys = ctx.budget(400, 6000, 2);
     let mut xlog: std::collections::BTreeMap<String, J> = Default::default();
     for e in es.iter().filter(|e| ctx.wants(e)) {
         // canonical routes only (route equivalence is C12's business)
